@@ -105,6 +105,8 @@ def expand(st, customs):
         return route('__%s/' % st['name']) + view(st) + [A('add#0', None, writes=[('static', '')])]
     if k == 'renderer':
         return [A('add_renderer#0', ('renderer', st['name']), writes=[('renderer', st['name'] or '')])]
+    if k == 'mapper':
+        return [A('set_view_mapper#0', ('mapper',), writes=[('mapper', '')])]
     if k == 'policy':
         return [A('set_security_policy#0', ('policy',), writes=[('policy', '')])]
     if k == 'defperm':
@@ -210,7 +212,7 @@ def to_wire(case):
     return [ws, [num[k] for k in keys], vs]
 
 
-OBSERVED = ('routes', 'riface', 'view', 'renderer', 'policy', 'defperm', 'csrfopts', 'rootf', 'sessf', 'reqf', 'reqext',
+OBSERVED = ('routes', 'riface', 'view', 'renderer', 'policy', 'mapper', 'defperm', 'csrfopts', 'rootf', 'sessf', 'reqf', 'reqext',
             'preds', 'derivers', 'subs', 'tweens', 'static')
 
 
@@ -281,6 +283,8 @@ def valid(case):
             if key in seen:
                 return False
             seen.add(key)
+        if not case.get('illformed') and not G.wellformed(case['stmts']):
+            return False      # (a shrink step must not turn a well-formed program into one referring to undeclared things)
         cls = {s['id']: G.SEQ_KINDS.get(s['k']) for s in case['stmts']}
         base = None
         for body in case['variants']:
@@ -608,13 +612,20 @@ def spec_holds(case, obs, spec):
     same error, and every variant answers every probe identically."""
     if not isinstance(obs, dict):
         return False
+    if case.get('illformed') and all(v['outcome'][0] == 'config-error' for v in obs['variants']):
+        return True
     d = _differing(obs)
     if d is None or d:
         return False
     r0 = obs['variants'][0]
     for v in obs['variants']:
-        if v['outcome'] != r0['outcome'] or v['outcome'][0] == 'setup-error':
+        if v['outcome'][0] == 'setup-error':
             return False          # (a Configurator that cannot even be set up produces no application at all)
+        if v['outcome'] != r0['outcome']:
+            # an ill-formed program (refers to an undeclared route / predicate / option) must be refused by every
+            # variant; WHICH of its independent mistakes is reported first may depend on where a commit falls
+            if not (case.get('illformed') and v['outcome'][0] == 'config-error' and r0['outcome'][0] == 'config-error'):
+                return False
     return True
 
 
@@ -711,7 +722,8 @@ def kinds(case, obs):
                 dep = (w['k'] == 'route' and s.get('route') == w['name']) or \
                       (w['k'] in ('defperm', 'policy', 'csrf')) or \
                       (w['k'] == 'renderer' and (w['name'] == s.get('renderer') or (w['name'] is None and not s.get('renderer')))) or \
-                      (w['k'] == 'vpred' and s.get(w['name']) is not None) or (w['k'] == 'deriver' and s.get('dopt'))
+                      (w['k'] == 'vpred' and s.get(w['name']) is not None) or (w['k'] == 'deriver' and s.get('dopt')) or \
+                      (w['k'] == 'mapper' and s.get('ret') == 'mv')
                 if dep and s['id'] in pos and w['id'] in pos and pos[w['id']] > pos[s['id']]:
                     fwd = True
     if fwd:
@@ -732,6 +744,10 @@ def kinds(case, obs):
         ks.append('route-prefix-include')
     if any(s.get('accept') for s in case['stmts']):
         ks.append('has-accept-view')
+    if case.get('illformed'):
+        ks.append('ill-formed-program')
+    if any(s.get('ret') == 'mv' for s in case['stmts']):
+        ks.append('has-view-for-custom-mapper')
     st = set()
     for q in obs['probes']:
         if isinstance(q, list):
@@ -775,6 +791,7 @@ def targeted(broken, disagreements, rng):
         [dict(k='view', name='x'), dict(k='csrf'), dict(k='sessf')],
         [dict(k='route', name='r0', pattern='/q', rp='1'), dict(k='rpred', name='rp'), dict(k='view', name='', route='r0')],
         [dict(k='static', name='st1'), dict(k='defperm', perm='p1'), dict(k='policy')],
+        [dict(k='view', name='x', ret='mv'), dict(k='mapper'), dict(k='view', name='y', ret='mv')],
     ]
     for prog in base:
         S = [dict(s, id=i) for i, s in enumerate(prog)]
